@@ -154,13 +154,21 @@ def write_vcf(
         file=f,
     )
     for m in sorted(all_mutations):
-        ref = m.op[0]  # TODO: should be genome nucleotide, not the RefSeq nucleotide?!
-        if m.op[1] == ">":
-            alt = m.op[2]
+        pos = m.pos
+        if ">" in m.op:
+            # Multi-nucleotide substitutions can skip positions (e.g., A.C>T.G)
+            l, r = m.op.split(">")
+            ref = "".join(gene[pos + i] if c == "." else c for i, c in enumerate(l))
+            alt = "".join(gene[pos + i] if c == "." else c for i, c in enumerate(r))
         elif m.op[:3] == "ins":
+            ref = gene[pos]
             alt = ref + m.op[3:]
         else:
-            ref, alt = ".", f"{m.op[3:]}, ."  # TODO: this is wrong?!
+            # Deletions (and deletion-insertions) are anchored at the preceding base
+            deleted, _, inserted = m.op[3:].partition("ins")
+            pos -= 1
+            ref = gene[pos] + deleted
+            alt = gene[pos] + inserted
 
         fm = gene.get_functional(m)
         fm = fm.replace(" ", "_").replace("\t", "_").replace(";", "_") if fm else "none"
@@ -196,7 +204,7 @@ def write_vcf(
         print(
             pattern.format(
                 chrom=gene.chr,
-                pos=m.pos + 1,
+                pos=pos + 1,
                 id=gene.get_rsid(m, default=False),
                 ref=ref,
                 alt=alt,
